@@ -94,7 +94,7 @@ def recover(wire, path, body, p=None):
     # and hio lists Content-Type / Content-Length under HTTP_ as well)
     fields = {("CONTENT_TYPE" if k == "HTTP_CONTENT_TYPE" else k) for k in env
               if (k.startswith("HTTP_") and k != "HTTP_CONTENT_LENGTH") or (k == "CONTENT_TYPE" and env[k] != "")}
-    return {"parser": p, "fields": fields, "sent_fields": sent_fields(wire),
+    return {"parser": p, "fields": fields, "sent_fields": sent_fields(wire), "host": env.get("HTTP_HOST"),
             "wire": wire, "method": env["REQUEST_METHOD"], "path": unquote(env["PATH_INFO"]), "path2": p.path,
             "qargs": dict(parse_qsl(env["QUERY_STRING"], keep_blank_values=True)), "hval": env.get("HTTP_X_H"),
             "body": env["wsgi.input"].read(), "want_path": path, "want_body": body, "ctype": env.get("CONTENT_TYPE", "")}
@@ -120,12 +120,16 @@ def roundtrip(method, seg, qkey, qval, hval, bodykind, pq="none"):
     return r
 
 
-def roundtrip_seq(reqs):
-    """several requests over one reused Requester, the way Client.transmit() does it -> list of results"""
+def roundtrip_seq(reqs, bare=False):
+    """several requests over one reused Requester, the way Client.transmit() does it -> list of results.
+    bare: the requests after the first are given an EMPTY dict of query arguments and of header fields (not None, which means
+    'as before'): they must go out without any"""
     from hio.core.http import clienting
     out, rq, p = [], None, None
     for i, r in enumerate(reqs):
         kw, body = params(*r, extra=(i % 2 == 0))      # every other request carries two more header fields
+        if bare and i > 0:
+            kw["qargs"], kw["headers"] = {}, {}
         try:
             if rq is None:
                 rq = clienting.Requester(hostname="h", port=8080, scheme="http", **kw)
@@ -165,6 +169,8 @@ def judge(r, seg, qkey, qval, hval, method, bodykind, dontcare, pq="none"):
         return "query arguments %r recovered as %r; wire %r" % (want_q, r["qargs"], r["wire"][:160])
     if r["hval"] != hval:
         return "header value %r recovered as %r" % (hval, r["hval"])
+    if r["host"] != "h:8080":
+        return "the Host field the server sees is %r, the client was made for h:8080" % (r["host"],)
     if r["fields"] != r["sent_fields"]:
         return "the server's environ has header fields %s, the request on the wire has %s" % (sorted(r["fields"]), sorted(r["sent_fields"]))
     if r["want_body"] is not None and r["body"] != r["want_body"]:
@@ -180,9 +186,14 @@ def concrete(q, k):
     return (q["method"], pick(q["seg"]), pick(q["qkey"]), pick(q["qval"]), pick(q["hval"]), q["body"])
 
 
-def judge_seq(reqs, dontcare, k, results):
+def judge_seq(reqs, dontcare, k, results, bare=False):
     for i, (q, res) in enumerate(zip(reqs, results)):
         method, seg, qkey, qval, hval, body = concrete(q, k)
+        if bare and i > 0 and "qargs" in res and not dontcare[i]:
+            if res["qargs"] or res["hval"] is not None:
+                return "request %d of %d over one Requester was given no query arguments and no header fields but went out with %r and X-H %r" % (
+                    i + 1, len(reqs), res["qargs"], res["hval"])
+            res = dict(res, qargs={qkey: qval, "fix": "1"}, hval=hval)       # the rest is judged as usual
         bad = judge(res, seg, qkey, qval, hval, method, body, dontcare[i])
         if bad:
             return "request %d of %d over one Requester (%s /top/%r/end?%r=%r X-H: %r body %s): %s" % (
@@ -208,15 +219,16 @@ def run_reuse(ctx, classes):
             reqs, dc = list(rec["reqs"]), list(rec["dontcare"])
             ctx.case(("seq", k) + tuple(tuple(sorted(q.items())) for q in reqs), {"requests": reqs} if i == 700 else None)
             try:
+                bare = (i % 4 == 3)
                 with core.watchdog():
-                    results = roundtrip_seq([concrete(q, k) for q in reqs])
-                bad = judge_seq(reqs, dc, k, results)
+                    results = roundtrip_seq([concrete(q, k) for q in reqs], bare)
+                bad = judge_seq(reqs, dc, k, results, bare)
             except core.Hang:
                 bad = "did not return"
             except Exception as ex:
                 bad = "raised %s: %s" % (type(ex).__name__, ex)
             if bad:
-                ctx.violation(bad, {"seq": reqs, "k": k, "dontcare": dc})
+                ctx.violation(bad, {"seq": reqs, "k": k, "dontcare": dc, "bare": bare})
 
 
 def run(ctx):
@@ -267,7 +279,8 @@ def run(ctx):
 def replay_case(ctx, case):
     if "seq" in case:
         try:
-            bad = judge_seq(case["seq"], case["dontcare"], case["k"], roundtrip_seq([concrete(q, case["k"]) for q in case["seq"]]))
+            bad = judge_seq(case["seq"], case["dontcare"], case["k"],
+                            roundtrip_seq([concrete(q, case["k"]) for q in case["seq"]], case.get("bare", False)), case.get("bare", False))
         except Exception as ex:
             bad = "raised %s: %s" % (type(ex).__name__, ex)
         return [bad] if bad else []
